@@ -44,6 +44,15 @@ def census_globals(pr, repo):
                 f = _ast.unparse(v.func).split('.')[-1]
                 if any(f in mm.classes for mm in repo.all_modules()) and f not in ('TypeVar',):
                     singletons.append('%s.%s = %s(...)' % (m.name, k, f))
+    memo = []
+    for m in repo.all_modules():
+        for n in _ast.walk(m.tree):
+            if isinstance(n, (_ast.FunctionDef, _ast.ClassDef)):
+                for d in n.decorator_list:
+                    if _ast.unparse(d).split('(')[0].split('.')[-1] in ('lru_cache', 'cache', 'cached_property', 'memoize'):
+                        memo.append('%s.%s' % (m.name, n.name))
+    pr.add(Ground('GW: no memoising decorator (lru_cache / cache / cached_property) in propka/ - a cache is state that outlives a call',
+                  not memo, detail=str(memo), kind='aux', backend='frame-checker'))
     pr.add(Ground('GW: no global/nonlocal statement in propka/', not globals_stmt, detail=str(globals_stmt), kind='aux', backend='frame-checker'))
     pr.add(Ground('GW: no mutable default argument in propka/', not mutable_defaults, detail=str(mutable_defaults), kind='aux', backend='frame-checker'))
     pr.add(Ground('GW: no mutable class-level attribute (shared between instances) in propka/', not mutable_class_attrs,
@@ -311,6 +320,14 @@ def bounded(pr):
                     if rng.random() < 0.4:
                         o += ['-p', alt_cfg]
                     native.run_text(native.pdb_lines(rng.choice(names)), o)
+                except Exception:    # noqa
+                    pass
+            if rng.random() < 0.5:
+                # the alternative parameter file is rewritten in place (same path, other content) and used again
+                txt = open(alt_cfg).read()
+                open(alt_cfg, 'w').write(re.sub(r'(?m)^desolv_cutoff\s+\S+', 'desolv_cutoff %s' % rng.choice((15.0, 17.0, 19.0)), txt))
+                try:
+                    native.run_text(native.pdb_lines(rng.choice(names)), ['-p', alt_cfg])
                 except Exception:    # noqa
                     pass
             junk = [object() for _ in range(rng.randint(0, 5000))]     # allocation padding
